@@ -138,7 +138,7 @@ func propertyFailsL(prop, op, res, lean string) (why string) {
 			if w := unitOracle(base, kind, args, res); w != "" {
 				return w
 			}
-			if base == "nackpairs" {
+			if base == "nackpairs" || base == "plist" || base == "range" {
 				if w := nackOracle(base, args, res); w != "" {
 					return w
 				}
@@ -670,7 +670,12 @@ func propertyFailsL(prop, op, res, lean string) (why string) {
 				}
 			}
 		case "cenc":
-			_, err := rtcp.Marshal(ps)
+			var err error
+			for _, p := range ps { // "every member marshals": member by member, not through the list encoder under test
+				if _, e := safeMarshal(p); e != nil {
+					err = e
+				}
+			}
 			if (specValidCompound(ps) && err == nil) != isOK {
 				return "CompoundPacket.Marshal succeeds iff Validate and members marshal: violated"
 			}
